@@ -17,6 +17,7 @@ RULE = (
     '{ordinary, outlying observations}; (bernoulli) marginal; (softmax) points x features x classes x mixing x batch incl. points==features; (logcdf) grid chunk; distinct = cell without seed; non-trivial iff variance>0 '
     '(always) and degree>=1'
     '; pass 5: SoftmaxLikelihood (points x features layout incl. points == features, replayed draws); likelihood / Bernoulli / log-Phi cells under trace_mode and debug(False); likelihoods in both modes'
+    '; pass 6: 60 000 - 250 000 Gaussians integrated in one call'
 )
 REQUIRED = ["poly_exact", "poly_degree_2n_not_exact", "dist_not_mutated", "lik_expected_log_prob", "lik_log_marginal", "bernoulli_marginal", "conditional_params", "log_normal_cdf", "log_normal_cdf_grad", "truncation_error_shrinks"]
 ASSUMPTIONS = [
